@@ -106,6 +106,7 @@ func (r *schedElectrum) Reboot(context.Context) error                           
 func TestC18NoDeadlockElectrumWatcher(t *testing.T) {
 	col := stats.Get("C18.electrum")
 	rapid.Check(t, func(t *rapid.T) {
+		sim.CaseStart(t)
 		w := sim.NewWorld()
 		defer w.Close()
 		a := w.AddNode("alice")
